@@ -45,6 +45,9 @@ def run(rep):
             'checked by comparing virtual delivery times of the default schedule with and without the listeners')
 
     explore.explore(rep, 'family-d1', [s for s in fam if not s.get('timing_only')], 1, bases, 'checks.oracles:oracle_c05', budget_s=900)
+    if quick and bases[0] != 'fifo':      # (the window in which the leaving ephemeral source hurts is narrow: always under 'fifo' as well)
+        explore.explore(rep, 'eph-source-leaves-fifo-d1', [s for s in fam if s['name'].startswith('eph-source-leaves/')], 1, ['fifo'], 'checks.oracles:oracle_c05', budget_s=900)
+
     explore.explore(rep, 'jumping-join-d1', [s for s in fam if s.get('timing_only')], 1, bases, 'checks.oracles:oracle_c05_integrity', budget_s=900)
 
     # two deviations for the consumers that mix a multi-topic ephemeral source with a synchronized one (a partial ephemeral set has to
